@@ -15,11 +15,11 @@ theorem foldMyEqual (other : List (Nat × Nat)) : ∀ (my : List (Nat × Nat)) (
     intro c
     rw [List.foldl_cons, ih]
     cases hl : lookupHead other e.1 with
-    | none => simp [stepMyEqual, specChanged, specRemoved, List.filter_cons, hl]
+    | none => simp [stepMyEqual, specChanged, specRemoved, filterRel, relNe, List.filter_cons, hl]
     | some h =>
       by_cases hh : h = e.2
-      · simp [stepMyEqual, specChanged, specRemoved, List.filter_cons, hl, hh]
-      · simp [stepMyEqual, specChanged, specRemoved, List.filter_cons, hl, hh]
+      · simp [stepMyEqual, specChanged, specRemoved, filterRel, relNe, List.filter_cons, hl, hh]
+      · simp [stepMyEqual, specChanged, specRemoved, filterRel, relNe, List.filter_cons, hl, hh]
 
 theorem foldOtherNew (my : List (Nat × Nat)) : ∀ (other : List (Nat × Nat)) (c : DCtx),
     other.foldl (stepOtherNew my) c
@@ -55,14 +55,14 @@ theorem foldMyGreater (other : List (Nat × Nat)) : ∀ (my : List (Nat × Nat))
     intro c
     rw [List.foldl_cons, ih]
     cases hl : lookupHead other e.1 with
-    | none => simp [stepMyGreater, specOurChanged, specTheirChanged, specRemoved, List.filter_cons, hl]
+    | none => simp [stepMyGreater, specOurChanged, specTheirChanged, specRemoved, filterRel, relOur, relTheir, List.filter_cons, hl]
     | some h =>
       by_cases hh : h = e.2
-      · simp [stepMyGreater, specOurChanged, specTheirChanged, specRemoved, List.filter_cons, hl, hh]
+      · simp [stepMyGreater, specOurChanged, specTheirChanged, specRemoved, filterRel, relOur, relTheir, List.filter_cons, hl, hh]
       · by_cases hg : h > e.2
-        · simp [stepMyGreater, specOurChanged, specTheirChanged, specRemoved, List.filter_cons, hl, hh, hg]
+        · simp [stepMyGreater, specOurChanged, specTheirChanged, specRemoved, filterRel, relOur, relTheir, List.filter_cons, hl, hh, hg]
         · have hle : h ≤ e.2 := by omega
-          simp [stepMyGreater, specOurChanged, specTheirChanged, specRemoved, List.filter_cons, hl, hh, hg, hle]
+          simp [stepMyGreater, specOurChanged, specTheirChanged, specRemoved, filterRel, relOur, relTheir, List.filter_cons, hl, hh, hg, hle]
 
 /-- **compareElementsGreater is exact** -/
 theorem cmpGreater_exact (c : DCtx) (my other : List (Nat × Nat)) :
